@@ -128,8 +128,9 @@ def run(ctx):
 
     r = ctx.rule('R05g', 'XOR kernel: wide loop + byte tail cover every byte of the block',
                  'payloads are multiples of 4 bytes only: a tail loop on wider words drops the last bytes of parity and of rebuilt data')
-    xorrules.kernel_rule(P, r)
-    r.require_min(2)
+    from .. import cover
+    cover.cover_rule(P, r, 'xor_bufs_and_store', [0], 1, 2)
+    r.require_min(1)
     r = ctx.rule('R05h', 'xor_reconstruct_one falls back to the full decoder with the complete erasure list',
                  'a decoder that does not know which parities are erased solves with a zero-filled placeholder')
     xorrules.reconstruct_fallback_rule(P, r)
